@@ -383,6 +383,22 @@ func c13Bounded(p *Prog, ib *inbound, ls *Lockset, r *Report) {
 				if ok && isK && builtinName(&lc.Call) == "len" && loadsField(lc.Call.Args[0], a.Field) && k <= 1000 {
 					okEvict = blockReaches(call.Block(), a.Ins.Block()) && !blockReaches(a.Ins.Block(), call.Block())
 					desc = fmt.Sprintf("eviction when more than %d entries", k)
+					// the evicted key is one of the cache's own keys (found by iterating the cache): only then does
+					// every eviction remove an entry, whatever the history of counters was
+					fromKeys := false
+					for _, b2 := range fn.Blocks {
+						for _, i2 := range b2.Instrs {
+							if rg, isR := i2.(*ssa.Range); isR && loadsField(rg.X, a.Field) {
+								if forwardTaint(rg)[call.Call.Args[1]] {
+									fromKeys = true
+								}
+							}
+						}
+					}
+					if !fromKeys {
+						okEvict = false
+						desc += "; the evicted key (" + Path(call.Call.Args[1]) + ") is computed, not taken from the keys present in the cache, so the eviction may remove nothing and the cache grows without bound"
+					}
 				}
 			}
 		}
